@@ -5,8 +5,8 @@ from .c10 import corpus_pairs
 
 RULE = ("`pairhex <design> <ghw file> <vcd file> <fst file>`: ONE abstract design + waveform (scopes, records, arrays of records, std_ulogic / bit scalars and vectors, enums, integers, reals, "
         "aliases, delta cycles) is written as a GHW file (gen/ghw_writer.py: per-bit records, fs), as a VCD file (gen/vcd_writer.py: text values, 9-state extension characters, "
-        "timescale 1 fs or 1 ps, shared id codes for aliases) and as an FST file (gen/fst_writer.py: 1..n value-change blocks, snapshot as frame or as records, packed / ASCII / "
-        "1-bit record forms, raw / zlib streams, alias handles, exponent -15 or -12). All files go through format detection + read_header + read_body + load; the format-independent observation — tree "
+        "any timescale 1 / 10 / 100 fs .. s that divides the times, shared id codes for aliases) and as an FST file (gen/fst_writer.py: 1..n value-change blocks, snapshot as frame or as records, packed / ASCII / "
+        "1-bit record forms, raw / zlib streams, alias handles, any exponent -15..0 that divides the times). All files go through format detection + read_header + read_body + load; the format-independent observation — tree "
         "(names, nesting, order, widths) and per variable the value at every time (time x timescale in fs, last value of a time step, unchanged steps dropped) — of each file must equal "
         "the observation of the design's denotation computed by the Lean specification. `pairfile <x.vcd> <x.vcd.fst>`: every VCD/FST pair of the corpus (vcd2fst output) "
         "through the same observation. non-trivial = at least one variable with a value; distinct = distinct (request, reply)")
@@ -17,10 +17,10 @@ def requests(ctx):
     quick = ctx.tier == "quick"
     rq = []
     for _ in range(600 if quick else 8000):
-        d, g, v, f = ghwgen.gen_triple(rng)
+        d, g, v, f, _e = ghwgen.gen_triple(rng)
         rq.append(f"pairhex {d} {g.hex()} {v.hex()} {f.hex()}")
     for _ in range(30 if quick else 300):
-        d, g, v, f = ghwgen.gen_triple(rng, nitems=rng.choice([15, 30]), nsteps=rng.choice([30, 100]))
+        d, g, v, f, _e = ghwgen.gen_triple(rng, nitems=rng.choice([15, 30]), nsteps=rng.choice([30, 100]))
         rq.append(f"pairhex {d} {g.hex()} {v.hex()} {f.hex()}")
     return rq
 
